@@ -65,6 +65,37 @@ func runC07(r *core.Run) {
 		ops = append(ops, opk{"unary", o})
 	}
 	ops = append(ops, opk{"clamp", "Clamp"})
+	// Bool operands: the one element type for which a comparison WITHOUT AsSameType can have an operand as its reuse
+	// tensor (the result is Bool, and so are they)
+	for _, op := range []string{"ElEq", "ElNe"} {
+		for _, shape := range [][]int{{3}, {2, 3}, {2, 1, 3}} {
+			if !r.Take() {
+				continue
+			}
+			for _, form := range []string{"TT", "TS", "ST"} {
+				modes := []string{"safe", "reuse:C", "reuse:T", "reuse=a"}
+				if form == "TT" {
+					modes = append(modes, "reuse=b")
+				}
+				if form == "ST" {
+					modes[3] = "reuse=b"
+				}
+				for _, mode := range modes {
+					for _, la := range []string{"C", "T", "S"} {
+						for _, lb := range []string{"C", "T"} {
+							if form != "TT" && lb != la {
+								continue
+							}
+							for _, vs := range []string{"id", "eq"} {
+								c := ewCase{kind: "cmp", op: op, form: form, mode: mode, api: "func", d: ref.Bool, shape: shape, layA: la, layB: lb, vs: vs}
+								ewRunCase(r, "C07", c, post)
+							}
+						}
+					}
+				}
+			}
+		}
+	}
 	for _, ok := range ops {
 		for _, d := range dts {
 			if ok.kind == "arith" && !supportsArith(ok.op, d) {
